@@ -146,7 +146,7 @@ ml_nonzero_2d = Contract(
                                                               ('complete', And(s.idx == _nz2cnt(s.i, s.j), s.Nj == s.bidx[1].len))])},
     checks=[(r'IJ\[0,idx\] = I', _nz2_write), (r'IJ\[1,idx\] = J', _nz2_write_col)],
     ensures=lambda s: [],
-    options={'timeout_ms': 60000},
+    options={'timeout_ms': 60000, 'check_int_products': True},
     notes=['pattern clause is a write-time contract: each stored pair is the Kronecker position of the current (i,j), stored at rank i*Nj+j '
            '(full pattern) resp. only if J<=I (lower_tri); idx is strictly increasing, so no slot is overwritten',
            'completeness: idx equals the number of qualifying pairs (all pairs, resp. those with J<=I) lexicographically before the current '
@@ -209,7 +209,7 @@ ml_nonzero_3d = Contract(
                                                               ('ij', And(0 <= s.i, s.i < s.Ni, 0 <= s.j, s.j < s.Nj)),
                                                               ('complete', And(s.idx == _nz3cnt(s.i, s.j, s.k), s.Nj == s.bidx[1].len, s.Nk == s.bidx[2].len))])},
     checks=[(r'IJ\[0,idx\] = I', _nz3_write), (r'IJ\[1,idx\] = J', _nz3_write_col)],
-    options={'timeout_ms': 90000},
+    options={'timeout_ms': 90000, 'check_int_products': True},
 )
 
 
@@ -280,7 +280,7 @@ ml_matvec_2d = Contract(
            1: LoopSpec(r'for j in range\(N\)', inv=lambda s: [('i', And(0 <= s.i, s.i < s.M)), ('len', s.y.len == s.old.y.len)])},
     checks=[(r'y\[I\] \+= X\[i,j\] \* x\[J\]', lambda s: [('row', s.I == s.bidx[0][s.i, 0] * s.block_sizes[1][0] + s.bidx[1][s.j, 0]),
                                                         ('col', s.J == s.bidx[0][s.i, 1] * s.block_sizes[1][1] + s.bidx[1][s.j, 1])])],
-    options={'timeout_ms': 60000},
+    options={'timeout_ms': 60000, 'check_int_products': True},
 )
 
 
@@ -303,7 +303,7 @@ ml_matvec_3d = Contract(
     checks=[(r'y\[I\] \+= X\[i,j,k\] \* x\[J\]', lambda s: [
         ('row', s.I == (s.bidx[0][s.i, 0] * s.block_sizes[1][0] + s.bidx[1][s.j, 0]) * s.block_sizes[2][0] + s.bidx[2][s.k, 0]),
         ('col', s.J == (s.bidx[0][s.i, 1] * s.block_sizes[1][1] + s.bidx[1][s.j, 1]) * s.block_sizes[2][1] + s.bidx[2][s.k, 1])])],
-    options={'timeout_ms': 90000},
+    options={'timeout_ms': 90000, 'check_int_products': True},
 )
 
 CONTRACTS = [reindex_from_reordered] + to_seq_instances + from_seq_instances + rfm_instances + \
